@@ -554,6 +554,22 @@ impl Compression {
     }
 }
 
+/// A reader that hands out at most `step` bytes per `read()` call.
+pub struct Dribble<'a> {
+    pub data: &'a [u8],
+    pub pos: usize,
+    pub step: usize,
+}
+
+impl<'a> std::io::Read for Dribble<'a> {
+    fn read(&mut self, buf: &mut [u8]) -> std::io::Result<usize> {
+        let n = buf.len().min(self.step).min(self.data.len() - self.pos);
+        buf[..n].copy_from_slice(&self.data[self.pos..self.pos + n]);
+        self.pos += n;
+        Ok(n)
+    }
+}
+
 #[derive(Debug)]
 pub enum Outcome {
     /// encoder returned Err: outside the round-trip properties' domain
@@ -602,6 +618,16 @@ pub fn binary_roundtrip(plan: &Plan, how: How, c: Compression, mode: FloatMode) 
                     }
                 }
                 _ => entry_points.push("Deserializer::new().deserialize fails on bytes from_reader accepts".to_owned()),
+            }
+            // a reader that delivers a few bytes per call describes the same file
+            let dribbled = crate::evidence::guarded(|| rbx_binary::from_reader(Dribble { data: &bytes, pos: 0, step: 7 }).map_err(|e| e.to_string()));
+            match dribbled {
+                Ok(Ok(d3)) => {
+                    if canon_forest(&d3, d3.root().children(), mode) != forest {
+                        entry_points.push("from_reader gives a different DOM when the reader delivers 7 bytes per call".to_owned());
+                    }
+                }
+                _ => entry_points.push("from_reader fails when the reader delivers 7 bytes per call although it accepts the same bytes from a slice".to_owned()),
             }
             if c == Compression::Lz4 {
                 let conv = crate::evidence::guarded(|| {
@@ -672,6 +698,10 @@ pub fn xml_roundtrip(plan: &Plan, how: How, mode: XmlMode, fmode: FloatMode) -> 
                 }
                 _ => entry_points.push(format!("{} fails on a document from_reader accepts", what)),
             };
+            {
+                let (_, o) = xml_options(mode);
+                same(crate::evidence::guarded(|| rbx_xml::from_reader(Dribble { data: &bytes, pos: 0, step: 7 }, o).map_err(|e| e.to_string())), "from_reader over a reader that delivers 7 bytes per call", &mut entry_points);
+            }
             if let Ok(text) = std::str::from_utf8(&bytes) {
                 let (_, o) = xml_options(mode);
                 same(crate::evidence::guarded(|| rbx_xml::from_str(text, o).map_err(|e| e.to_string())), "from_str", &mut entry_points);
